@@ -9,9 +9,9 @@ SPEC = os.path.join(vlib.SPECS, "fs")
 LEVEL = "model_checking"
 
 
-def judge(chk, scratch, trace, what, spec="FsRemoveTrace", describe=None):
+def judge(chk, scratch, trace, what, spec="FsRemoveTrace", describe=None, spec_dir=None):
     total = sum(1 for line in open(trace) if line.strip())
-    r = vlib.run_tlc(scratch, [SPEC], spec, spec + ".cfg", workers=1, timeout=1800, deadlock=False,
+    r = vlib.run_tlc(scratch, [spec_dir or SPEC], spec, spec + ".cfg", workers=1, timeout=1800, deadlock=False,
                      extra_files=[(trace, "trace.ndjson")], fast=True)
     if r.error:
         raise vlib.Inconclusive("TLC error judging %s: %s" % (what, r.error))
